@@ -436,6 +436,17 @@ class ExternalVarsVisitor(ast.NodeVisitor):
         self.vars: Dict[LocalDepPath, ExternalDep] = {}
         # All the dependencies that are encountered but do not lead to an external dep.
         self._rejected_paths: Set[LocalDepPath] = set()
+        # The modules imported in the body of the function, by the name they are bound to.
+        self._imported_modules: Dict[str, List[str]] = {}
+
+    def visit_Import(self, node: ast.Import) -> Any:
+        # import pkg.conf -> pkg ; import pkg.conf as conf -> conf (see visit_Attribute)
+        for alias in node.names:
+            parts = alias.name.split(".")
+            if alias.asname is None:
+                self._imported_modules[parts[0]] = parts[:1]
+            else:
+                self._imported_modules[alias.asname] = parts
 
     def visit_Name(self, node: ast.Name, debug: bool = False) -> Any:
         local_dep_path = LocalDepPath(PurePosixPath(node.id))
@@ -517,10 +528,20 @@ class ExternalVarsVisitor(ast.NodeVisitor):
         # A variable of an accepted module read through the module: conf.VAR, pkg.conf.VAR
         parts = _attribute_chain(node)
         if (
+            parts is not None
+            and parts[0] not in self._start_mod.__dict__
+            and parts[0] in self._imported_modules
+        ):
+            # The module is imported in the body of the function: it is looked up from the root.
+            parts = self._imported_modules[parts[0]] + parts[1:]
+        elif parts is not None and not isinstance(
+            self._start_mod.__dict__.get(parts[0]), ModuleType
+        ):
+            parts = None
+        if (
             parts is None
             or not isinstance(node.ctx, ast.Load)
             or parts[0] in self._local_vars
-            or not isinstance(self._start_mod.__dict__.get(parts[0]), ModuleType)
         ):
             self.generic_visit(node)
             return
